@@ -205,6 +205,13 @@ def build_arrays(case):
     slices that may overlap or start at the same address, and the same ndarray object used more
     than once; with case["present"] == "copies" the same values go in as independent arrays."""
     lay = case.get("layout")
+    same = case.get("same_list") if case.get("present") != "copies" else None
+    if same:
+        # X_test IS X_train (the very same list object), or X_test = X_train[:] (another list
+        # holding the same ndarray objects); the case's test values equal its train values
+        assert case["test"] == case["train"]
+        tr = build_arrays(dict(case, same_list=None))[0]
+        return tr, (tr if same == "is" else list(tr))
     if not lay or case.get("present") == "copies":
         return _arrays(case, case["train"]), _arrays(case, case["test"])
     d = len(case["train"][0][0])
@@ -293,6 +300,24 @@ def gen_alias_case(rng, quick):
     return None
 
 
+def gen_same_list_case(rng, quick):
+    """The training list itself is the test set: same_list = "is" (X_test is X_train) or
+    "slice" (X_test = X_train[:], a distinct list of the same ndarray objects); 30% on top of
+    the alias presentation (the shared arrays are views of big arrays)."""
+    for _ in range(300):
+        c = gen_alias_case(rng, quick) if rng.random() < 0.3 else gen_case(rng, quick)
+        if c is None or c["rank_only"] or c["int_dtype"]:
+            continue
+        if not _blocks_nonzero(c["train"], c["train"], c["comp_dims"]):
+            continue
+        c["test"] = [[list(r) for r in st] for st in c["train"]]
+        if c.get("layout"):
+            c["layout"] = dict(c["layout"], test=[list(x) for x in c["layout"]["train"]])
+        c["same_list"] = rng.choice(["is", "is", "slice"])
+        return c
+    return None
+
+
 def run_impl(case, arrays=None, raw=None):
     """One call of the public function.  [arrays] = (train list, test list) to pass these very
     objects (call-sequence family); [raw], a list, receives the returned ndarray objects."""
@@ -346,7 +371,7 @@ def run_sequence(cases, reuse=False):
     recs, raws, snaps, prev = [], [], [], None
     for c in cases:
         tr, te = build_arrays(c)
-        viewed = bool(c.get("layout")) and c.get("present") != "copies"
+        viewed = bool(c.get("layout") or c.get("same_list")) and c.get("present") != "copies"
         if viewed:
             prev = None              # overlapping views are never overwritten in place
         if reuse and prev is not None:
@@ -488,17 +513,25 @@ def gen_sequence(rng, quick):
     d = len(c0["train"][0][0])
     want = rng.randint(2, 4)
     variants = ["regroup_train", "regroup_train", "regroup_test", "alpha", "comp_dims", "swap",
-                "kind", "value", "back"]
+                "kind", "value", "back", "same_list", "same_list"]
     for step in range(40):
         if len(seq) > want:
             break
         c = seq[-1]
         v = "regroup_train" if (len(seq) == 1 and rng.random() < 0.5) else rng.choice(
-            variants + (["present", "present"] if c.get("layout") else []))
+            variants + (["present", "present"] if (c.get("layout") or c.get("same_list")) else []))
         n = dict(_slim(c))
         if v in ("regroup_train", "regroup_test", "value"):
             n.pop("layout", None)        # the values no longer are slices of the big arrays
             n.pop("present", None)
+        if v in ("regroup_train", "regroup_test", "value", "swap"):
+            n.pop("same_list", None)
+        if v == "same_list":
+            # the training list itself (or a slice copy of it) is passed as the test set
+            n["test"] = [[list(r) for r in st] for st in c["train"]]
+            if c.get("layout"):
+                n["layout"] = dict(c["layout"], test=[list(x) for x in c["layout"]["train"]])
+            n["same_list"] = rng.choice(["is", "is", "slice"])
         if v == "present":
             # the same values, the other presentation (views of shared arrays <-> independent copies)
             n["present"] = "copies" if c.get("present") != "copies" else "views"
@@ -975,21 +1008,28 @@ def run(ctx):
     n_zero = 120 if ctx.quick else 800
     n_alias = 200 if ctx.quick else 1500
     stats.update(alias_cases=0, alias_same_start_pairs=0, alias_bit_identical=0, alias_rounding=0, alias_differs=0)
-    for k in range(ncases + n_zero + n_alias):
+    n_same = 160 if ctx.quick else 1200
+    stats.update(same_list_cases={})
+    for k in range(ncases + n_zero + n_alias + n_same):
         c = (gen_case(ctx.rng, ctx.quick) if k < ncases else
-             gen_zero_case(ctx.rng, ctx.quick) if k < ncases + n_zero else gen_alias_case(ctx.rng, ctx.quick))
+             gen_zero_case(ctx.rng, ctx.quick) if k < ncases + n_zero else
+             gen_alias_case(ctx.rng, ctx.quick) if k < ncases + n_zero + n_alias else
+             gen_same_list_case(ctx.rng, ctx.quick))
         if c is None:
             continue
         r = run_impl(c)
         h = hints(c)
-        if c.get("layout"):
+        if c.get("same_list"):
+            key = "%s/%s%s" % (c["kind"], c["same_list"], "+views" if c.get("layout") else "")
+            stats["same_list_cases"][key] = stats["same_list_cases"].get(key, 0) + 1
+        if c.get("layout") or c.get("same_list"):
             # aliasing presentation: the call on views of shared arrays against the same call on
             # independent copies (bit-identical); the views result goes through Coq like any other
             stats["alias_cases"] += 1
             tr_a, te_a = build_arrays(c)
             ptr = [a.__array_interface__["data"][0] for a in tr_a + te_a]
             stats["alias_same_start_pairs"] += len(ptr) - len(set(ptr))
-            rc = run_impl(dict(c, present="copies"))
+            rc = run_impl(dict(c, present="copies", same_list=None))
             lvl = same_result(r, rc, h["cond"])
             if lvl is None:
                 stats["alias_differs"] += 1
@@ -997,8 +1037,11 @@ def run(ctx):
                 rep = dict(case=c, observed={kk: v for kk, v in r.items() if kk not in ("xprime", "xinv")},
                            observed_on_independent_copies={kk: v for kk, v in rc.items() if kk not in ("xprime", "xinv")})
                 if msg:
-                    C.report_violation(ctx, "C20 fails on the implementation when structures are passed as overlapping views "
-                                       "of one array (the same values as independent copies give another result): " + msg,
+                    how = ("when the very same list object is passed as X_train and X_test" if c.get("same_list") == "is" else
+                           "when X_test is another list of the SAME ndarray objects as X_train" if c.get("same_list") else
+                           "when structures are passed as overlapping views of one array")
+                    C.report_violation(ctx, "C20 fails on the implementation %s (the same values as independent copies give "
+                                       "another result): %s" % (how, msg),
                                        rep, found_input=True)
                 else:
                     C.report_violation(ctx, "correspondence broken: the result depends on whether structures are views of one "
